@@ -34,6 +34,7 @@ import (
 	api_v1 "k8s.io/api/core/v1"
 	networking "k8s.io/api/networking/v1"
 	meta_v1 "k8s.io/apimachinery/pkg/apis/meta/v1"
+	"k8s.io/apimachinery/pkg/apis/meta/v1/unstructured"
 	"k8s.io/apimachinery/pkg/util/intstr"
 
 	"github.com/nginx/kubernetes-ingress/internal/configs"
@@ -143,11 +144,47 @@ func (m *recMgr) CreateSecret(name string, c []byte, mode os.FileMode) string {
 	return m.LocalManager.CreateSecret(name, c, mode)
 }
 
+// m.files is the state of the disk: EVERY file the Configurator has written and not deleted (NGINX
+// configuration, secrets, App Protect policies / log configurations / user signatures, DoS files)
 func (m *recMgr) CreateAppProtectResourceFile(name string, c []byte) { m.rec("ap:"+name, c, false) }
-func (m *recMgr) DeleteAppProtectResourceFile(string)                {}
-func (m *recMgr) ClearAppProtectFolder(string)                       {}
-func (m *recMgr) Reload(bool) error                                  { m.reloads++; return nil }
-func (m *recMgr) UpdateConfigVersionFile(bool)                       {}
+func (m *recMgr) DeleteAppProtectResourceFile(name string)           { delete(m.files, "ap:"+name) }
+func (m *recMgr) ClearAppProtectFolder(name string) {
+	for _, n := range sortedKeys(m.files) {
+		if strings.HasPrefix(n, "ap:"+name) {
+			delete(m.files, n)
+		}
+	}
+}
+
+func (m *recMgr) DeleteConfig(name string) {
+	delete(m.files, "conf.d/"+name+".conf")
+	m.LocalManager.DeleteConfig(name)
+}
+
+func (m *recMgr) DeleteStreamConfig(name string) {
+	delete(m.files, "stream-conf.d/"+name+".conf")
+	m.LocalManager.DeleteStreamConfig(name)
+}
+
+func (m *recMgr) DeleteSecret(name string) {
+	for _, n := range sortedKeys(m.files) {
+		if strings.HasPrefix(n, "secrets/") && strings.HasSuffix(name, strings.TrimPrefix(n, "secrets/")) {
+			delete(m.files, n)
+		}
+	}
+	m.LocalManager.DeleteSecret(name)
+}
+
+// disk returns a copy of the state of the disk
+func (m *recMgr) disk() map[string][]byte {
+	out := make(map[string][]byte, len(m.files))
+	for n, b := range m.files {
+		out[n] = b
+	}
+	return out
+}
+func (m *recMgr) Reload(bool) error            { m.reloads++; return nil }
+func (m *recMgr) UpdateConfigVersionFile(bool) {}
 func (m *recMgr) UpdateServersInPlus(string, []string, nginx.ServerConfig) error {
 	return nil
 }
@@ -286,9 +323,12 @@ func longNames() (string, string) {
 }
 
 func buildVS(r *vh.Rng, p map[string]int) *configs.VirtualServerEx {
-	ns, vsName := "default", "cafe"
+	ns, vsName, host := "default", "cafe", "cafe.example.com"
 	if p["long"] > 0 {
 		ns, vsName = longNames()
+	}
+	if p["idx"] > 0 { // several VirtualServers in one batch
+		vsName, host = fmt.Sprintf("%s-%d", vsName, p["idx"]), fmt.Sprintf("cafe%d.example.com", p["idx"])
 	}
 	ups := p["ups"]
 	if ups < 2 {
@@ -296,7 +336,7 @@ func buildVS(r *vh.Rng, p map[string]int) *configs.VirtualServerEx {
 	}
 	vs := &conf_v1.VirtualServer{
 		ObjectMeta: meta_v1.ObjectMeta{Name: vsName, Namespace: ns},
-		Spec:       conf_v1.VirtualServerSpec{Host: "cafe.example.com"},
+		Spec:       conf_v1.VirtualServerSpec{Host: host},
 	}
 	ex := &configs.VirtualServerEx{
 		VirtualServer:    vs,
@@ -370,6 +410,22 @@ func buildVS(r *vh.Rng, p map[string]int) *configs.VirtualServerEx {
 		} else if i-1 < len(vs.Spec.Routes) {
 			vs.Spec.Routes[i-1].Policies = append(vs.Spec.Routes[i-1].Policies, ref)
 		}
+	}
+	if p["oidc"] > 0 { // OIDC policy at spec level (NGINX Plus)
+		ex.Policies[ns+"/oidc-policy"] = &conf_v1.Policy{ObjectMeta: meta_v1.ObjectMeta{Name: "oidc-policy", Namespace: ns},
+			Spec: conf_v1.PolicySpec{OIDC: &conf_v1.OIDC{AuthEndpoint: "https://idp.example.com/auth", TokenEndpoint: "https://idp.example.com/token",
+				JWKSURI: "https://idp.example.com/jwks", ClientID: fmt.Sprintf("client-%d", p["idx"]), ClientSecret: "oidc-secret", Scope: "openid+profile"}}}
+		ex.SecretRefs[ns+"/oidc-secret"] = &secrets.SecretReference{Secret: &api_v1.Secret{ObjectMeta: meta_v1.ObjectMeta{Name: "oidc-secret", Namespace: ns},
+			Type: secrets.SecretTypeOIDC, Data: map[string][]byte{"client-secret": []byte(fmt.Sprintf("s3cr3t-%x", r.U64()))}}}
+		vs.Spec.Policies = append(vs.Spec.Policies, conf_v1.PolicyReference{Name: "oidc-policy"})
+	}
+	if p["waf"] > 0 { // WAF policy referencing an App Protect policy and a log configuration
+		ex.Policies[ns+"/waf-policy"] = &conf_v1.Policy{ObjectMeta: meta_v1.ObjectMeta{Name: "waf-policy", Namespace: ns},
+			Spec: conf_v1.PolicySpec{WAF: &conf_v1.WAF{Enable: true, ApPolicy: "dataguard-alarm",
+				SecurityLogs: []*conf_v1.SecurityLog{{Enable: true, ApLogConf: "logconf", LogDest: "syslog:server=127.0.0.1:514"}}}}}
+		ex.ApPolRefs = map[string]*unstructured.Unstructured{ns + "/dataguard-alarm": apPolicy(ns, "dataguard-alarm", 1)}
+		ex.LogConfRefs = map[string]*unstructured.Unstructured{ns + "/logconf": apLogConf(ns, "logconf", 1)}
+		vs.Spec.Policies = append(vs.Spec.Policies, conf_v1.PolicyReference{Name: "waf-policy"})
 	}
 	// tiered rate limits at spec level: claims x tiers
 	k := 0
@@ -490,6 +546,14 @@ func buildIngress(r *vh.Rng, p map[string]int, nm string, host string, annN int,
 				Path: "/healthz", Port: intstr.FromInt(80), Scheme: "HTTP", HTTPHeaders: []api_v1.HTTPHeader{{Name: "Host", Value: host}, {Name: "X-Probe", Value: svc}, {Name: "Accept", Value: "text/plain"}, {Name: "B3", Value: "0"}}}},
 				PeriodSeconds: int32(1 + i), TimeoutSeconds: 1}
 		}
+	}
+	if p["waf"] > 0 {
+		ann["appprotect.f5.com/app-protect-enable"] = "True"
+		ann["appprotect.f5.com/app-protect-policy"] = "default/dataguard-alarm"
+		ann["appprotect.f5.com/app-protect-security-log-enable"] = "True"
+		ann["appprotect.f5.com/app-protect-security-log"] = "default/logconf"
+		ex.AppProtectPolicy = apPolicy("default", "dataguard-alarm", 1)
+		ex.AppProtectLogs = []configs.AppProtectLog{{LogConf: apLogConf("default", "logconf", 1), Dest: "syslog:server=127.0.0.1:514"}}
 	}
 	if p["dup"] > 0 {
 		ann["nginx.org/proxy-hide-headers"] = "X-Powered-By,Server,X-Powered-By,X-Secret,Server"
@@ -710,7 +774,7 @@ func runRender(c *Case) (obs RenderObs) {
 			res, mm = buildResources(c, round) // fresh, equal resources every time (endpoint sets in another order)
 		}
 		obs.MaxMap = mm
-		mgr.files, mgr.changed = map[string][]byte{}, false
+		mgr.changed = false
 		before := mgr.reloads
 		snaps := snapshot(res)
 		if _, err := cnf.AddOrUpdateResources(res, false); err != nil {
@@ -718,22 +782,23 @@ func runRender(c *Case) (obs RenderObs) {
 			return
 		}
 		obs.Mutated = addMutations(obs.Mutated, snaps)
-		names := make([]string, 0, len(mgr.files))
-		for n := range mgr.files {
+		files := mgr.disk()
+		names := make([]string, 0, len(files))
+		for n := range files {
 			names = append(names, n)
 		}
 		sort.Strings(names)
 		rd := Rendering{Changed: mgr.changed, Reloaded: mgr.reloads > before}
 		key := ""
 		for _, n := range names {
-			h := shaHex(mgr.files[n])
+			h := shaHex(files[n])
 			rd.Files = append(rd.Files, FileDigest{Name: n, Sha: h})
 			key += n + ":" + h + ";"
 		}
 		seen[key] = true
 		obs.Renderings = append(obs.Renderings, rd)
 		if round == 0 {
-			first = mgr.files
+			first = files
 			obs.First = map[string]string{}
 			for n, b := range first {
 				obs.Bytes += len(b)
@@ -741,8 +806,8 @@ func runRender(c *Case) (obs RenderObs) {
 			}
 		} else if obs.Diff == nil {
 			for _, n := range names {
-				if string(first[n]) != string(mgr.files[n]) {
-					obs.Diff = firstDiff(round, n, first[n], mgr.files[n])
+				if string(first[n]) != string(files[n]) {
+					obs.Diff = firstDiff(round, n, first[n], files[n])
 					break
 				}
 			}
@@ -782,6 +847,12 @@ func snapIngress(out []snap, ex *configs.IngressEx) []snap {
 		return out
 	}
 	out = append(out, snap{"Ingress " + ex.Ingress.Namespace + "/" + ex.Ingress.Name, ex.Ingress, ex.Ingress.DeepCopy()})
+	if ex.AppProtectPolicy != nil {
+		out = append(out, snap{"APPolicy " + ex.AppProtectPolicy.GetName(), ex.AppProtectPolicy, ex.AppProtectPolicy.DeepCopy()})
+	}
+	for _, lg := range ex.AppProtectLogs {
+		out = append(out, snap{"APLogConf " + lg.LogConf.GetName(), lg.LogConf, lg.LogConf.DeepCopy()})
+	}
 	return snapSecrets(out, ex.SecretRefs)
 }
 
@@ -805,6 +876,12 @@ func snapshot(res configs.ExtendedResources) []snap {
 		}
 		for _, k := range sortedKeys(ex.Policies) {
 			out = append(out, snap{"Policy " + k, ex.Policies[k], ex.Policies[k].DeepCopy()})
+		}
+		for _, k := range sortedKeys(ex.ApPolRefs) {
+			out = append(out, snap{"APPolicy " + k, ex.ApPolRefs[k], ex.ApPolRefs[k].DeepCopy()})
+		}
+		for _, k := range sortedKeys(ex.LogConfRefs) {
+			out = append(out, snap{"APLogConf " + k, ex.LogConfRefs[k], ex.LogConfRefs[k].DeepCopy()})
 		}
 		out = snapSecrets(out, ex.SecretRefs)
 	}
@@ -912,6 +989,12 @@ var historyScenarios = []struct{ name, kind string }{
 	{"vs-secret-key-added", "vs"},
 	{"vs-route-removed", "vs"},
 	{"ts-upstream-changed", "ts"},
+	// an App Protect resource deleted and re-created under its name (new UID, new spec, generation 1 again),
+	// delivered as one update
+	{"vs-appolicy-recreated", "vs"},
+	{"vs-aplogconf-recreated", "vs"},
+	{"ingress-appolicy-recreated", "ingress"},
+	{"ingress-aplogconf-recreated", "ingress"},
 }
 
 var inheritable = [][3]string{ // annotation, value in A, value in B
@@ -926,6 +1009,13 @@ func historyStore(c *Case) configs.ExtendedResources {
 	sc := historyScenarios[c.P["scenario"]%len(historyScenarios)]
 	cc := *c
 	cc.Kind = sc.kind
+	if strings.Contains(sc.name, "-ap") {
+		cc.P = map[string]int{}
+		for k, v := range c.P {
+			cc.P[k] = v
+		}
+		cc.P["waf"] = 1
+	}
 	res, _ := buildResources(&cc, 0)
 	if sc.kind == "mergeable" {
 		m := res.MergeableIngresses[0]
@@ -1004,7 +1094,67 @@ func historyUpdate(c *Case, res *configs.ExtendedResources) {
 		ts.Spec.Upstreams[0].MaxFails = &mf
 		ts.Spec.Upstreams[0].FailTimeout = "21s"
 		ex.TransportServer = ts
+	case "vs-appolicy-recreated":
+		ex := res.VirtualServerExes[0]
+		for _, k := range sortedKeys(ex.ApPolRefs) {
+			ex.ApPolRefs[k] = apPolicy(ex.ApPolRefs[k].GetNamespace(), ex.ApPolRefs[k].GetName(), 2)
+		}
+	case "vs-aplogconf-recreated":
+		ex := res.VirtualServerExes[0]
+		for _, k := range sortedKeys(ex.LogConfRefs) {
+			ex.LogConfRefs[k] = apLogConf(ex.LogConfRefs[k].GetNamespace(), ex.LogConfRefs[k].GetName(), 2)
+		}
+	case "ingress-appolicy-recreated":
+		ex := res.IngressExes[0]
+		ex.AppProtectPolicy = apPolicy(ex.AppProtectPolicy.GetNamespace(), ex.AppProtectPolicy.GetName(), 2)
+	case "ingress-aplogconf-recreated":
+		ex := res.IngressExes[0]
+		logs := append([]configs.AppProtectLog(nil), ex.AppProtectLogs...)
+		logs[0].LogConf = apLogConf(logs[0].LogConf.GetNamespace(), logs[0].LogConf.GetName(), 2)
+		ex.AppProtectLogs = logs
 	}
+}
+
+// updatedAPResource: in the App Protect scenarios, the resource the update event is about
+func updatedAPResource(c *Case, res configs.ExtendedResources) *unstructured.Unstructured {
+	switch historyScenarios[c.P["scenario"]%len(historyScenarios)].name {
+	case "vs-appolicy-recreated":
+		ex := res.VirtualServerExes[0]
+		for _, k := range sortedKeys(ex.ApPolRefs) {
+			return ex.ApPolRefs[k]
+		}
+	case "vs-aplogconf-recreated":
+		ex := res.VirtualServerExes[0]
+		for _, k := range sortedKeys(ex.LogConfRefs) {
+			return ex.LogConfRefs[k]
+		}
+	case "ingress-appolicy-recreated":
+		return res.IngressExes[0].AppProtectPolicy
+	case "ingress-aplogconf-recreated":
+		return res.IngressExes[0].AppProtectLogs[0].LogConf
+	}
+	return nil
+}
+
+// App Protect resources: incarnation 1 and 2 differ in UID and spec; both have generation 1
+func apObject(kind, ns, name string, incarnation int, spec map[string]any) *unstructured.Unstructured {
+	return &unstructured.Unstructured{Object: map[string]any{
+		"apiVersion": "appprotect.f5.com/v1beta1", "kind": kind,
+		"metadata": map[string]any{"namespace": ns, "name": name, "uid": fmt.Sprintf("uid-%s-%d", name, incarnation), "generation": int64(1)},
+		"spec":     spec,
+	}}
+}
+
+func apPolicy(ns, name string, incarnation int) *unstructured.Unstructured {
+	mode := []string{"blocking", "transparent"}[(incarnation+1)%2]
+	return apObject("APPolicy", ns, name, incarnation, map[string]any{"policy": map[string]any{
+		"name": name, "template": map[string]any{"name": "POLICY_TEMPLATE_NGINX_BASE"}, "applicationLanguage": "utf-8", "enforcementMode": mode}})
+}
+
+func apLogConf(ns, name string, incarnation int) *unstructured.Unstructured {
+	return apObject("APLogConf", ns, name, incarnation, map[string]any{
+		"content": map[string]any{"format": "default", "max_message_size": fmt.Sprintf("%dk", 32*incarnation), "max_request_size": "any"},
+		"filter":  map[string]any{"request_type": []string{"illegal", "all"}[(incarnation+1)%2]}})
 }
 
 // syncWrappers: fresh *Ex wrappers around the stored objects (the generator may replace the
@@ -1063,13 +1213,21 @@ func runHistory(c *Case) (obs HistoryObs) {
 	}()
 	obs.Scenario = historyScenarios[c.P["scenario"]%len(historyScenarios)].name
 	render := func(cnf *configs.Configurator, mgr *recMgr, store configs.ExtendedResources) (map[string][]byte, error) {
-		mgr.files, mgr.changed = map[string][]byte{}, false
+		mgr.changed = false
 		snaps := snapshot(store)
-		if _, err := cnf.AddOrUpdateResources(syncWrappers(store), false); err != nil {
+		w := syncWrappers(store)
+		var err error
+		if u := updatedAPResource(c, store); u != nil && c.P["via"] > 0 {
+			// an App Protect resource event: the controller hands the resource and everything that references it over
+			_, err = cnf.AddOrUpdateAppProtectResource(u, w.IngressExes, w.MergeableIngresses, w.VirtualServerExes)
+		} else {
+			_, err = cnf.AddOrUpdateResources(w, false)
+		}
+		if err != nil {
 			return nil, err
 		}
 		obs.Mutated = addMutations(obs.Mutated, snaps)
-		return mgr.files, nil
+		return mgr.disk(), nil // EVERY file on disk, not only what this call wrote
 	}
 	dir1 := filepath.Join(workDir, fmt.Sprintf("c09tmp-%d-%d-h1", os.Getpid(), c.ID))
 	dir2 := filepath.Join(workDir, fmt.Sprintf("c09tmp-%d-%d-h2", os.Getpid(), c.ID))
@@ -1325,6 +1483,13 @@ func runUnit(c *Case) (obs UnitObs) {
 
 // ---------------------------------------------------------------- generation of cases
 
+func b2i(b bool) int {
+	if b {
+		return 1
+	}
+	return 0
+}
+
 func genCases(a vh.Args) []Case {
 	rng := vh.NewRng(a.Seed)
 	rounds := 60
@@ -1348,6 +1513,9 @@ func genCases(a vh.Args) []Case {
 	add("render", "mergeable", true, map[string]int{"svcs": 3, "eps": 1, "ann": 10, "minions": 3, "deny": 1, "hc": 1}, rounds) //
 	add("render", "ts", false, map[string]int{"n": 1, "ups": 5, "eps": 3}, rounds)                                             // TS with several upstreams
 	add("render", "ts", true, map[string]int{"n": 5, "ups": 2, "eps": 1, "pt": 1}, rounds)                                     // TLS passthrough host map with 5 entries
+	// App Protect: WAF policy with an APPolicy and an APLogConf (the policy / log-conf files are files too)
+	add("render", "vs", true, map[string]int{"ups": 2, "eps": 1, "waf": 1, "reuse": 1}, rounds)
+	add("render", "ingress", true, map[string]int{"svcs": 2, "eps": 1, "ann": 4, "waf": 1}, rounds)
 	// lists with repeated entries, the same object values rendered again and again (no re-creation, no deep copy)
 	add("render", "vs", false, map[string]int{"ups": 4, "eps": 1, "hdr": 3, "dup": 1, "mix": 1, "reuse": 1}, rounds)
 	add("render", "vs", true, map[string]int{"ups": 3, "eps": 1, "hdr": 2, "dup": 1, "akp": 2, "keys": 3, "claims": 2, "tiers": 2, "vsr": 1, "reuse": 1}, rounds)
@@ -1425,9 +1593,14 @@ func genCases(a vh.Args) []Case {
 	for sc := range historyScenarios {
 		for _, plus := range []bool{false, true} {
 			add("history", historyScenarios[sc].kind, plus, map[string]int{"scenario": sc, "svcs": 3, "eps": 1, "ann": 8, "minions": 3, "deny": 1,
-				"ups": 3, "keys": 3, "akp": 2, "claims": 2, "tiers": 2, "n": 2, "hdr": 2, "dup": 1, "long": sc % 2}, 1)
+				"ups": 3, "keys": 3, "akp": 2, "claims": 2, "tiers": 2, "n": 2, "hdr": 2, "dup": 1, "long": sc % 2, "via": b2i(plus)}, 1)
 		}
 	}
+	// batch versus single: every batch entry point of the Configurator, 3 VirtualServers (the first with an OIDC policy)
+	for e := range batchEntries {
+		add("history", "batch", true, map[string]int{"entry": e, "nvs": 3, "ups": 2, "eps": 1, "hdr": 1, "svcs": 2, "ann": 3, "n": 1}, 1)
+	}
+	add("history", "batch", false, map[string]int{"entry": 0, "nvs": 2, "ups": 2, "svcs": 2, "ann": 3, "n": 1}, 1)
 	// settings histories: every custom-template key x every sequence, alternating template sets
 	for key := range templateKeys {
 		for sq := range configSequences {
@@ -1486,6 +1659,8 @@ func main() {
 		case "history":
 			if c.Kind == "config" {
 				c.Obs = runConfigHistory(c)
+			} else if c.Kind == "batch" {
+				c.Obs = runBatch(c)
 			} else {
 				c.Obs = runHistory(c)
 			}
